@@ -10,7 +10,9 @@ KEEP_PREFIX = 2          # `clock` + first `load` lines are never removed by the
 SIZES = {"quick": 1500, "thorough": 30000}
 BATCH = 1500
 EXTRA_MODULES = ("Sentinel.Lemmas.Hot", "Sentinel.Lemmas.HotSV", "Sentinel.Lemmas.HotSim")
-RULE = ("30% of the plain cases reload the rules 1-3 times mid-case (identical / changed limits / one rule split into several "
+RULE = ("5% `inflight` cases (a throttling rule that queues + 1-3 reject rules, `onsleep`: the reload is performed from inside the "
+        "clock's Sleep of a queued request, i.e. while Slot.Check is in flight); 20% of the entries carry several WithArgs options; "
+        "30% of the plain cases reload the rules 1-3 times mid-case (identical / changed limits / one rule split into several "
         "stat-reusable ones / merge / reorder / changed duration-capacity-behaviour / added rule); 3 per 1500 cases are capacity "
         "cases (`sweep`: 1-10k live values around the effective capacity, explicit ParamsMaxCapacity above / below the derived "
         "default, then early and late values visited again); otherwise: "
@@ -92,7 +94,7 @@ def reload_rules(rng, rules, pool):
     """the rule set of the next generation: identical / modified limits / split / merge / reorder / changed statistic
     geometry (duration, capacity, behaviour => fresh) / added rule; returns (new rules, kind)"""
     rs = [dict(r) for r in rules]
-    kind = rng.choice(["identical", "limits", "limits", "split", "split", "split", "merge", "reorder", "geometry", "add", "param"])
+    kind = rng.choice(["identical", "identical", "limits", "limits", "split", "split", "split", "merge", "reorder", "geometry", "add", "add", "add", "param"])
     r = rng.choice(rs)
     if kind == "limits":
         r["T"] = rng.choice([0, 1, 2, 3, 5, 10, r["T"] + 1])
@@ -162,7 +164,8 @@ def capacity_case(rng, cid):
 
 def gen_case(rng, cid):
     u = rng.random()
-    slice_ = "finding" if u < 0.12 else "backwards" if u < 0.14 else "overflow" if u < 0.17 else "invalid" if u < 0.22 else "plain"
+    slice_ = ("finding" if u < 0.12 else "backwards" if u < 0.14 else "overflow" if u < 0.17 else "invalid" if u < 0.22
+              else "inflight" if u < 0.27 else "plain")
     npool = rng.choice([1, 2, 2, 3, 3, 4, 5, 6, 9])
     pool = value_pool(rng, npool)
     resources = ["r"] if rng.random() < 0.8 else ["r", "q"]
@@ -176,6 +179,16 @@ def gen_case(rng, cid):
                 mode = "reject"
             thr_used = thr_used or mode == "throttle"
             rules.append(gen_rule(rng, res, pool, mode, slice_ == "finding"))
+    if slice_ == "inflight":
+        # a throttling rule that really queues, followed by 1-3 reject rules on other parameters; requests close together
+        resources = ["r"]
+        t = gen_rule(rng, "r", pool, "throttle", False)
+        t.update(T=rng.choice([2, 4, 5, 10]), D=1, mq=rng.choice([300, 1000, 2000]), idx=0, key="-", items="-", cap=0)
+        rules = [t]
+        for k in range(rng.choice([1, 2, 2, 3])):
+            a = gen_rule(rng, "r", pool, "reject", False)
+            a.update(idx=rng.choice([k + 1, k + 1, -1, -2]), key="-", T=rng.choice([1, 1, 2, 3, 100]), D=1, cap=rng.choice([0, 0, 3]))
+            rules.append(a)
     if slice_ == "invalid":
         r = rng.choice(rules)
         k = rng.randrange(7)
@@ -213,15 +226,29 @@ def gen_case(rng, cid):
     focus = rng.sample(pool, min(len(pool), rng.choice([1, 1, 2, 3, 9])))
     nent = rng.randint(20, 160)
     reload_at = set()
-    if slice_ in ("plain", "finding") and rng.random() < 0.3:
-        reload_at = set(rng.sample(range(1, nent), min(nent - 1, rng.choice([1, 1, 2, 3]))))
+    if slice_ == "inflight" or (slice_ in ("plain", "finding") and rng.random() < 0.3):
+        reload_at = set(rng.sample(range(1, nent), min(nent - 1, rng.choice([1, 1, 2, 3, 4] if slice_ == "inflight" else [1, 1, 2, 3]))))
     for step in range(nent):
         if step in reload_at:
-            rules, kind = reload_rules(rng, rules, pool)
-            ops.append("load %d %s" % (len(rules), " ".join(show_rule(r) for r in rules)))
-            DIST["reload:" + kind] += 1
+            rules2, kind = reload_rules(rng, rules, pool)
+            if slice_ == "inflight" or (rng.random() < 0.25 and any(r["cb"] == 1 for r in rules)):
+                # the reload is done by another goroutine while the next queued request sleeps; it stays armed until a
+                # request is queued, so the generator does not know when it takes effect: keep using the old rules for
+                # shaping the traffic
+                if rng.random() < 0.1:
+                    rules2 = rules2 + ["-"]
+                ops.append("onsleep %d %s" % (len(rules2), " ".join(r if r == "-" else show_rule(r) for r in rules2)))
+                DIST["reload-while-queued:" + kind] += 1
+            else:
+                rules = rules2
+                if rng.random() < 0.05:
+                    ops.append("load %d %s -" % (len(rules) + 1, " ".join(show_rule(r) for r in rules)))
+                    DIST["load-with-nil-rule"] += 1
+                else:
+                    ops.append("load %d %s" % (len(rules), " ".join(show_rule(r) for r in rules)))
+                DIST["reload:" + kind] += 1
         # time
-        if rng.random() < 0.6:
+        if rng.random() < (0.6 if slice_ != "inflight" else 0.3):
             T = main["T"] if main["T"] > 0 else 1
             iv = dms // T if T < 2 ** 40 else 0
             d = rng.choice([0, 0, 0, 1, 1, 2, max(0, iv - 1), iv, iv + 1, iv // 2, dms - 1, dms, dms + 1, 2 * dms, 2 * dms + 1, rng.randint(0, dms), rng.randint(0, 3 * dms)])
@@ -238,8 +265,14 @@ def gen_case(rng, cid):
             batch = rng.choice([2 ** 32 - 1, 2 ** 31])
         batch = min(batch, 2 ** 32 - 1)
         pick = lambda: rng.choice(focus) if rng.random() < 0.8 else rng.choice(pool + ["v:n:"])
-        na = rng.choice([0, 1, 1, 1, 1, 2, 2, 3])
+        na = rng.choice([0, 1, 1, 1, 1, 2, 2, 3]) if slice_ != "inflight" else rng.choice([2, 3, 3, 4])
         args = [pick() for _ in range(na)]
+        if rng.random() < 0.2:
+            # several WithArgs options on one Entry (their arguments are appended): `+` separates the options
+            for _ in range(rng.choice([1, 1, 2])):
+                args.insert(rng.randrange(len(args) + 1), "+")
+            na = len(args)
+            DIST["entry-multi-WithArgs"] += 1
         atts = []
         if rng.random() < 0.3:
             for k in rng.sample(["k", "u", "z"], rng.choice([1, 1, 2])):
@@ -314,10 +347,14 @@ def nontrivial(case, impl):
             continue
         k = "wait" if " w:" in r else r.split()[0] if r else "none"
         DIST["result:" + k] += 1
+        if " reload:" in r:
+            DIST["result:reload-while-queued"] += 1
         kinds.add(k)
         na = int(t[3])
         a = tuple(t[4:4 + na])
         for v in a:
+            if v == "+":
+                continue
             vals.add(v)
             DIST["kind:" + v.split(":")[1]] += 1
         seq.append((a, t[2], k))
